@@ -1554,6 +1554,7 @@ func (v *VMValue) ComputedExecute(ctx *Context, detail *BufferSpan) *VMValue {
 		usedOps := vm.NumOpCount
 		if err := vm.Parse(cd.Expr); err == nil {
 			vm.NumOpCount = usedOps
+			vm.dropTrailingHalt()
 			_ = vm.RunAfterParsed()
 		}
 		cd.code = vm.code
@@ -1667,6 +1668,15 @@ func opCountAdd(count IntType, n IntType) IntType {
 	return count + n
 }
 
+// dropTrailingHalt removes the halt that ends a program compiled on its own. A function or computed body
+// compiled in place (at its definition) has none, and every dispatched instruction is charged to the
+// operation budget: without this a body restored from JSON costs one operation more per evaluation.
+func (ctx *Context) dropTrailingHalt() {
+	if ctx.codeIndex > 0 && ctx.code[ctx.codeIndex-1].T == typeHalt {
+		ctx.codeIndex--
+	}
+}
+
 func (v *VMValue) FuncInvoke(ctx *Context, params []*VMValue) *VMValue {
 	return v.FuncInvokeRaw(ctx, params, false)
 }
@@ -1716,6 +1726,7 @@ func (v *VMValue) FuncInvokeRaw(ctx *Context, params []*VMValue, useUpCtxLocal b
 		usedOps := vm.NumOpCount
 		if err := vm.Parse(cd.Expr); err == nil {
 			vm.NumOpCount = usedOps
+			vm.dropTrailingHalt()
 			_ = vm.RunAfterParsed()
 		}
 		cd.code = vm.code
